@@ -29,7 +29,7 @@ after-mcp mcp__github__create_* "posted"
 after-mcp mcp__github__* ""
 after-mcp mcp__x__* "x tool"
 """
-BASE_TEXT = "allow ok1\ndeny denied \"no\"\nallow-mcp mcp__github__get_*\ndeny-mcp mcp__fs__*\n"
+BASE_TEXT = "allow ok1\ndeny denied \"no\"\nask git push * \"think twice\"\nallow-mcp mcp__github__get_*\ndeny-mcp mcp__fs__* \"no fs\"\nask-mcp mcp__github__create_* \"confirm first\"\nask-mcp mcp__x__*\n"
 
 
 def correspondence(ctx):
@@ -63,7 +63,11 @@ def search(ctx):
                 mixed.append(other_lines[oi]); oi += 1
         with_after = "\n".join(mixed) + "\n"
         without_after = BASE_TEXT
-        cfg = C.parse_config(with_after)
+        # the two after families separately: a family with no rule at all must stay silent whatever the other rules say
+        after_only = BASE_TEXT + "".join(l + "\n" for l in after_lines if l.startswith("after "))
+        aftermcp_only = "".join(l + "\n" for l in after_lines if l.startswith("after-mcp ")) + BASE_TEXT
+        texts = {"with": with_after, "without": without_after, "after_only": after_only, "aftermcp_only": aftermcp_only}
+        cfgs = {k: C.parse_config(t) for k, t in texts.items()}
         cmds = ["git push", "git push origin main", "git commit -m x", "npm run build", "ls", "ls -la | cat", "git push; ls", "rm x", "'unterminated", "", "if true; then git push; fi", "X=1 git push", "git status"]
         tools = ["mcp__github__create_pr", "mcp__github__get_issue", "mcp__x__t", "mcp__none__t", "mcp__fs__read"]
         n = ctx.scale(120, 3000) * (3 if ctx.broken else 1)
@@ -88,7 +92,7 @@ def search(ctx):
                 v["hook_event_name"] = ev
             if r.chance(0.15):
                 v["permission_mode"] = "bypassPermissions"
-            for cfgname, text in (("with", with_after), ("without", without_after)):
+            for cfgname, text in texts.items():
                 p = s.write("cfg_%s.conf" % cfgname, text)
                 jobs.append({"stdin": json.dumps(v).encode(), "home": s.home, "env_extra": {"DIPPY_CONFIG": p}, "cwd": s.proj})
                 metas.append((meta, ev, cfgname, v))
@@ -98,11 +102,12 @@ def search(ctx):
             stats["evaluations"] += 1
             key = json.dumps(v, sort_keys=True)
             by_input.setdefault(key, {})[cfgname] = out
-            base = {"input": {"stdin": v, "config": with_after if cfgname == "with" else without_after}, "observed": {"exit": rc, "stdout": out[:300].decode("utf-8", "replace")}}
+            cfg = cfgs[cfgname]
+            base = {"input": {"stdin": v, "config": texts[cfgname]}, "observed": {"exit": rc, "stdout": out[:300].decode("utf-8", "replace")}}
             if rc != 0 or b"Traceback" in err:
                 vios.append(dict(base, required="exit 0, no traceback", oracle="post-total"))
                 continue
-            if ev == "PostToolUse" and cfgname == "with":
+            if ev == "PostToolUse":
                 stats["post_events"] += 1
                 text = out.decode("utf-8", "replace")
                 if any(k in text for k in ("permissionDecision", '"permission"', '"decision"')):
